@@ -32,7 +32,7 @@ ASSUMPTIONS = ["process restarts are modelled by destroying the engine and Build
 
 
 def budget(tier):
-    return 9000 if tier == "quick" else 300000
+    return 12000 if tier == "quick" else 300000
 
 
 _LONG = st.integers(200, 70000).map(lambda n: (b"K" + b"x" * n).hex())
@@ -95,10 +95,14 @@ def lock_case(draw):
     return c
 
 
+_LOCKS = [0]
+
+
 def strategy(tier):
     # the lock family costs SQLite's 5 s busy timeout per case: keep it rare
-    return st.one_of(*([diff_case()] * 12 + [bytes_case()] * 12 + [version_case()] * 2) + [st.integers(0, 60).flatmap(
-        lambda n: lock_case() if n == 0 else diff_case())])
+    return st.one_of(*([diff_case()] * 12 + [bytes_case()] * 12 + [version_case()] * 2) + [st.integers(0, 40).flatmap(
+        # (17, not 0: Hypothesis favours the bounds of an integer range)
+        lambda n: lock_case() if n == 17 else diff_case())])
 
 
 def run(case, ctx, dump=False):
@@ -273,6 +277,11 @@ def run_case(case, ctx, verbose=False):
                     return Outcome("attach failed but a build ran", classes=classes)
         return Outcome(None, nontrivial=True, classes=classes)
     if kind == "lock":
+        # each lock case costs SQLite's 5 s busy timeout; a worker runs at most four of them (the rest are
+        # counted, not run) so that one unlucky worker does not decide the wall time of the tier
+        _LOCKS[0] += 1
+        if _LOCKS[0] > 4:
+            return Outcome(None, nontrivial=False, classes=["lock-not-run(budget)"])
         r = run(case, ctx, dump=True)
         v = bad_exit(r, "lock")
         if v:
